@@ -32,7 +32,7 @@ struct Mapping { uint8_t* addr; size_t len; size_t live_len; int prot; bool huge
 
 struct State {
 	uint8_t* arena = nullptr; size_t bump = 0;
-	uint8_t* harena = nullptr; size_t hbump = 0;
+	uint8_t* harena = nullptr; size_t hbump = 0; void* hfree[40] = { nullptr };
 	uint8_t* marena = nullptr; size_t mbump = 0;
 	bool tracking = false;          // true while the harness is inside a library API call
 	// environment answers
@@ -43,6 +43,7 @@ struct State {
 	long fail_at = -1;              // 1-based index of the request that fails (-1: none)
 	bool fail_sticky = false;       // the failing request and all later ones fail
 	bool hugepages = false;         // answer to MAP_HUGETLB requests
+	bool efence = false;            // electric-fence mode: every library block >= 4096 bytes ends at (and is preceded by) a PROT_NONE page
 	// accounting
 	long requests = 0;              // allocation requests issued while tracking (heap + mappings)
 	long failed = 0;
@@ -54,6 +55,7 @@ struct State {
 	long wx_cache_events = 0;                           // ... on a mapping owned by a cache (owner 10..19)
 	int cur_owner = 0;                                  // set by the harness around creating calls: 10+i cache i, 20 VM
 	long rwx_allowed = 0;                               // set by the harness when RWX is legitimate (non-secure VM buffers)
+	struct EF { uint8_t* user; size_t size; uint8_t* base; size_t body; }; EF ef[64]; unsigned nef = 0; long ef_overruns = 0;
 	char last_req[96] = { 0 }; char failed_req[96] = { 0 };   // description of the most recent / the first failed request
 };
 inline State& S() { static State s; return s; }
@@ -84,15 +86,31 @@ inline Class* find_class(size_t size, size_t align) {
 inline void* alloc(size_t size, size_t align, bool zero) {
 	init(); State& s = S();
 	if (align < 16) align = 16;
-	if (!s.tracking) {   // harness allocation: separate arena, never reused (simple and deterministic)
-		size_t p = (s.hbump + sizeof(Hdr) + align - 1) & ~(align - 1);
-		if (p + size > HARENA) { const char m[] = "envalloc: harness arena exhausted\n"; if (write(2, m, sizeof m - 1)) {} _exit(2); }
-		Hdr* h = (Hdr*)(s.harena + p - sizeof(Hdr)); h->magic = MAGIC; h->size = size; h->lib = 0; h->cls = 0; h->base = nullptr;
-		s.hbump = p + size; if (zero) memset(s.harena + p, 0, size);   // fresh anonymous pages are zero already, but realloc'd data may move
+	if (!s.tracking) {   // harness allocation: separate arena, power-of-two size classes with LIFO reuse
+		size_t need = size < 32 ? 32 : size; unsigned k = 5; while (((size_t)1 << k) < need) ++k;
+		if (align <= 64 && k < 40 && s.hfree[k]) { void* u = s.hfree[k]; s.hfree[k] = *(void**)u; Hdr* h = (Hdr*)((uint8_t*)u - sizeof(Hdr)); h->magic = MAGIC; h->size = size; if (zero) memset(u, 0, size); return u; }
+		size_t cap = (size_t)1 << k; size_t al = align < 64 ? 64 : align;
+		size_t p = (s.hbump + sizeof(Hdr) + al - 1) & ~(al - 1);
+		if (p + cap > HARENA) { const char m[] = "envalloc: harness arena exhausted\n"; if (write(2, m, sizeof m - 1)) {} _exit(2); }
+		Hdr* h = (Hdr*)(s.harena + p - sizeof(Hdr)); h->magic = MAGIC; h->size = size; h->lib = 0; h->cls = k; h->base = nullptr;
+		s.hbump = p + cap; if (zero) memset(s.harena + p, 0, size);
 		return s.harena + p;
 	}
 	snprintf(s.last_req, sizeof s.last_req, "heap %zu align %zu", size, align);
 	if (should_fail()) { errno = ENOMEM; return nullptr; }
+	if (s.efence && size >= 4096) {   // [guard page][slack | block ends at a page boundary][guard page], inside the reserved mapping arena
+		size_t body = (size + 4095) & ~(size_t)4095, tot = body + 8192;
+		if (s.mbump + tot > MARENA) { errno = ENOMEM; return nullptr; }
+		uint8_t* base = s.marena + s.mbump; s.mbump += tot;
+		if ((void*)syscall(SYS_mmap, base + 4096, body, PROT_READ | PROT_WRITE, MAP_PRIVATE | MAP_ANONYMOUS | MAP_NORESERVE | MAP_FIXED, -1, 0) == MAP_FAILED) { errno = ENOMEM; return nullptr; }
+		uint8_t* user = base + 4096 + ((body - size) & ~(align - 1));
+		size_t slack_hi = (size_t)((base + 4096 + body) - (user + size));      // < align bytes, canary-filled, checked on release
+		memset(user + size, 0xEF, slack_hi);
+		if (user - (base + 4096) >= (long)sizeof(Hdr)) { Hdr* h = (Hdr*)(user - sizeof(Hdr)); h->magic = MAGIC ^ 0xEFEF; h->size = size; h->lib = 2; h->cls = 63; h->base = base; }
+		if (s.nef < 64) s.ef[s.nef++] = State::EF{ user, size, base, body };
+		++s.live_blocks; s.live_bytes += (long)size;
+		return user;
+	}
 	Class* c = find_class(size, align); void* user = nullptr;
 	bool reuse = size >= BIG ? s.reuse_large : s.reuse_small;
 	if (c && reuse && c->free_head) { user = c->free_head; c->free_head = c->free_head->next; --c->nfree; }
@@ -110,15 +128,20 @@ inline void* alloc(size_t size, size_t align, bool zero) {
 
 inline void release(void* p) {
 	if (!p) return; State& s = S();
+	for (unsigned i = 0; i < s.nef; ++i) if (s.ef[i].user == p) {   // electric-fence block: check the slack canary, then make the whole body inaccessible
+		uint8_t* end = s.ef[i].base + 4096 + s.ef[i].body; for (uint8_t* q = s.ef[i].user + s.ef[i].size; q < end; ++q) if (*q != 0xEF) { ++s.ef_overruns; break; }
+		syscall(SYS_mmap, s.ef[i].base + 4096, s.ef[i].body, PROT_NONE, MAP_PRIVATE | MAP_ANONYMOUS | MAP_NORESERVE | MAP_FIXED, -1, 0);
+		--s.live_blocks; s.live_bytes -= (long)s.ef[i].size; s.ef[i] = s.ef[--s.nef]; return;
+	}
 	Hdr* h = (Hdr*)((uint8_t*)p - sizeof(Hdr));
 	if (h->magic != MAGIC) { ++s.bad_frees; return; }
-	if (!h->lib) { h->magic = 0; return; }
+	if (!h->lib) { h->magic = 0; if (h->cls >= 5 && h->cls < 40) { *(void**)p = s.hfree[h->cls]; s.hfree[h->cls] = p; } return; }
 	h->magic = ~MAGIC;   // double free detection
 	--s.live_blocks; s.live_bytes -= (long)h->size;
 	memset(p, s.poison, h->size);
 	if (h->cls < 63) { Class& c = s.cls[h->cls]; --c.live; FreeNode* n = (FreeNode*)p; n->next = c.free_head; c.free_head = n; ++c.nfree; }
 }
-inline size_t usable(void* p) { if (!p) return 0; Hdr* h = (Hdr*)((uint8_t*)p - sizeof(Hdr)); return h->size; }
+inline size_t usable(void* p) { if (!p) return 0; State& s = S(); for (unsigned i = 0; i < s.nef; ++i) if (s.ef[i].user == p) return s.ef[i].size; Hdr* h = (Hdr*)((uint8_t*)p - sizeof(Hdr)); return h->size; }
 
 // ---- page mappings requested by the library ----
 inline void note_prot(Mapping& m, int prot, const char* how) {
